@@ -53,7 +53,7 @@ def construct(case, G, ctype=float):
         return G.Plane(B.pt(case[1], ctype), B.vec(case[2], ctype))
     if k == "GF":
         a, b, c, d = case[1]
-        cv = (lambda x: int(x)) if case[2] == "int" else float
+        cv = (lambda x: int(x)) if case[2] == "int" else (lambda x: float(x))
         return G.Plane(cv(a), cv(b), cv(c), cv(d))
     if k == "3P":
         return G.Plane(B.pt(case[1], ctype), B.pt(case[2], ctype), B.pt(case[3], ctype))
@@ -218,7 +218,9 @@ def gen_pn(draw):
 def gen_gf(draw):
     a, b, c = draw(gen.direction(4))
     d = draw(st.integers(-6, 6))
-    return ("GF", (int(a), int(b), int(c), d), draw(st.sampled_from(("int", "float"))))
+    integral = all(x.denominator == 1 for x in (a, b, c))
+    mode = draw(st.sampled_from(("int", "float"))) if integral else "float"
+    return ("GF", (a, b, c, F(d)), mode)
 
 
 @st.composite
